@@ -68,6 +68,7 @@ def key_of(case):
 def run(ctx):
     cases = gen(ctx)
     obs = ctx.run_impl(cases, 'history', timeout=2400)
+    raglib.locale_independent(ctx, cases, obs, 'history', 'ragged-history')
     terms, keep = [], []
     for case, steps in zip(cases, obs):
         key = key_of(case)
